@@ -30,7 +30,8 @@ ASSUMPTIONS = ['dictionary helpers are not asserted for paths that run through a
 def rtree(r, maxd, depth=0):
     d = {}
     for k in r.sample(['a', 'b', 'c'], r.randint(1, 3)):
-        d[k] = rtree(r, maxd, depth + 1) if depth < maxd - 1 and r.random() < 0.5 else r.randint(0, 9)
+        # (a leaf may hold None: a stored None is a value, not an absent entry)
+        d[k] = rtree(r, maxd, depth + 1) if depth < maxd - 1 and r.random() < 0.5 else r.choice([None] + list(range(10)))
     return d
 
 
